@@ -7,6 +7,7 @@ mod rng;
 mod c09;
 mod search;
 mod searchprops;
+mod appbuild;
 mod c20;
 mod c16;
 mod c17;
